@@ -20,7 +20,7 @@ import (
 //
 // Classes of inputs on which the pinned tree violates the property (each has a minimal replay under
 // replays/C12/). They are left out of the main generators by construction and counted with
-// c.Excluded. VERIF_C12_INCLUDE=class1,class2 (or "all") puts classes back, e.g. after a fix.
+// c.Excluded (unless listed in fixedClasses below). VERIF_C12_INCLUDE=class1,class2 (or "all") puts classes back, e.g. after a fix.
 const (
 	clsIntegralFloat = "integral_float_literal"  // 2.0 prints as 2 and re-parses as an integer (or not at all below -2^63)
 	clsAndOverOr     = "or_before_and_unparenth" // yacc: AND and OR share one precedence level, printer adds no parentheses
@@ -48,7 +48,19 @@ var included = func() map[string]bool {
 	return m
 }()
 
-func classIncluded(cls string) bool { return included["all"] || included[cls] }
+// fixedClasses: classes repaired in /repo by the named fix commit. They are part of the main campaigns
+// again; their replays are regression cases.
+var fixedClasses = map[string]string{
+	clsSortQuote:    "bbab3de",
+	clsBitwise:      "778bd99",
+	clsFillInt:      "f29259e",
+	clsQualifiedSrc: "506af7a",
+	clsFillRD:       "d9fdb86",
+	clsEmptyInSet:   "50496e6",
+	clsSubMicroDur:  "f4048f1",
+}
+
+func classIncluded(cls string) bool { return fixedClasses[cls] != "" || included["all"] || included[cls] }
 
 // ---------------------------------------------------------------- generator state
 
@@ -417,9 +429,6 @@ func (g *gen) value(depth int) frag {
 		return g.atom()
 	case 3, 4, 5, 6: // binary arithmetic
 		ops := []string{"+", "-", "*", "/", "%", "&", "|", "^"}
-		if !g.d.yacc {
-			ops = ops[:5] // not operators of the recursive-descent parser: it would stop reading there
-		}
 		op := rapid.SampledFrom(ops).Draw(g.t, "arith")
 		if (op == "&" || op == "|" || op == "^") && !g.allow(clsBitwise) {
 			op = "+"
